@@ -1,4 +1,5 @@
 """Property-specific generators (C11 scoping, ...)."""
+import collections
 import random
 
 import gen
@@ -93,4 +94,103 @@ def gen_c11(seed, ptr):
     exp = dict(types={}, enums={}, vftables={}, funcs={}, externs={}, miss=None if ok else "unresolvable name",
                c11=dict(obs="::".join(obs + ["Obs"]), fields=[(f, n, list(b) if b else None, s) for f, n, b, s in expect_fields],
                         total=total, arg=(arg, list(argb) if argb else None), resolvable=ok))
+    return files, exp
+
+
+def gen_c10(seed, ptr):
+    """random dependency graphs: by-value / array / base / pointer edges, undefined names in every
+    position; returns the expected stuck set computed from the graph (the property's wording)"""
+    rng = random.Random(seed)
+    n = rng.randint(2, 12)
+    nmods = rng.randint(1, 4)
+    mods = [["g%d" % i] for i in range(nmods)]
+    owner = [rng.randrange(nmods) for _ in range(n)]
+    names = ["N%d" % i for i in range(n)]
+    kind = ["enum" if rng.random() < 0.15 else "type" for _ in range(n)]
+    mode = rng.random()
+    p_cycle = 0.0 if mode < 0.45 else 0.35
+    p_undef = 0.0 if mode < 0.6 else 0.12
+    byvalue = collections.defaultdict(set)     # i -> set of j (by-value dependencies)
+    undefined_field = set()
+    hard_error = False                          # undefined name in parameter / return / extern value
+    texts = collections.defaultdict(list)
+    for i in range(n):
+        if kind[i] == "enum":
+            k = rng.random()
+            if k < p_undef:
+                base = "Missing%d" % i
+                undefined_field.add(i)
+            elif k < p_undef + 0.1 and i > 0:
+                j = rng.randrange(n)
+                base = names[j]
+                byvalue[i].add(j)
+            else:
+                base = rng.choice(["u8", "u32", "i64"])
+            texts[owner[i]].append("pub enum %s: %s { A, B }" % (names[i], base))
+            continue
+        fields = []
+        for f in range(rng.randint(0, 4)):
+            k = rng.random()
+            # earlier items are safe targets; later or equal ones may close a cycle
+            if rng.random() < p_cycle:
+                j = rng.randrange(n)
+            else:
+                j = rng.randrange(i) if i > 0 else None
+            if rng.random() < p_undef:
+                t = rng.choice(["Missing%d_%d" % (i, f), "[Missing%d_%d; 2]" % (i, f)])
+                undefined_field.add(i)
+                fields.append("    pub f%d: %s" % (f, t))
+                continue
+            if j is None or (kind[j] == "enum" and k >= 0.8):
+                fields.append("    pub f%d: %s" % (f, rng.choice(["u8", "u32", "*const u8"])))
+                continue
+            if k < 0.35:
+                fields.append("    pub f%d: %s" % (f, names[j]))
+                byvalue[i].add(j)
+            elif k < 0.5:
+                fields.append("    pub f%d: [%s; %d]" % (f, names[j], rng.randint(1, 3)))
+                byvalue[i].add(j)
+            elif k < 0.6 and kind[j] == "type":
+                fields.append("    #[base] pub f%d: %s" % (f, names[j]))
+                byvalue[i].add(j)
+            else:
+                # pointers may point anywhere, also into cycles
+                jj = rng.randrange(n)
+                fields.append("    pub f%d: *%s %s" % (f, rng.choice(["const", "mut"]), names[jj]))
+        texts[owner[i]].append("#[packed]\npub type %s {\n%s\n}" % (names[i], ",\n".join(fields)))
+        if rng.random() < 0.3:
+            jj = rng.randrange(n)
+            k = rng.random()
+            if k < p_undef:
+                sig = "(&self, a: *const MissingP%d)" % i
+                hard_error = True
+            elif k < 2 * p_undef:
+                sig = "(&self) -> MissingR%d" % i
+                hard_error = True
+            else:
+                sig = "(&self, a: *mut %s) -> *const %s" % (names[jj], names[i])
+            texts[owner[i]].append("impl %s {\n    #[address(0x%x)]\n    pub fn m%d%s;\n}" % (names[i], 0x1000 + i, i, sig))
+    if rng.random() < p_undef:
+        texts[0].append("#[address(0x10)]\npub extern gx: *const MissingX;")
+        hard_error = True
+    # stuck = least set containing the items with an undefined field name or on a by-value cycle,
+    # closed under "depends by value on a stuck item" (computed as a greatest fixpoint of resolvable)
+    resolvable = set()
+    changed = True
+    while changed:
+        changed = False
+        for i in range(n):
+            if i not in resolvable and i not in undefined_field and all(j in resolvable for j in byvalue[i]):
+                resolvable.add(i)
+                changed = True
+    stuck = sorted("::".join(mods[owner[i]] + [names[i]]) for i in range(n) if i not in resolvable)
+    files = {}
+    for mi, m in enumerate(mods):
+        items = texts[mi]
+        rng.shuffle(items)
+        uses = "".join("use %s;\n" % "::".join(o) for oi, o in enumerate(mods) if oi != mi)
+        files["/".join(m) + ".pyxis"] = uses + "\n".join(items) + "\n"
+    exp = dict(types={}, enums={}, vftables={}, funcs={}, externs={}, miss=None,
+               c10=dict(stuck=stuck, hard_error=hard_error, n=n,
+                        all_items=sorted("::".join(mods[owner[i]] + [names[i]]) for i in range(n))))
     return files, exp
